@@ -4,6 +4,7 @@ import io
 import itertools
 import os
 import random
+import sys
 import threading
 import traceback
 
@@ -25,7 +26,12 @@ RULE = ("inputs: (a) corpus archives damaged (bit flips, truncations, overwrites
         "bytes replaced, header ranges deleted/duplicated) and hostile coder properties for every codec, all CRCs re-sealed so the parser is "
         "entered; (c) wrong/missing passwords; plus the intact corpus. x call sequences of length <= 4 over {getnames, list, test, testzip, "
         "extractall, extract(T), reset} incl. extract twice without reset. Monitors per sequence: CPU time <= %.1fs (ITIMER_PROF, process CPU), "
-        "VmHWM rise <= %d MiB, only Exception subclasses escape, worker exit status. Cell = (input family, mutation class, sequence shape, outcome)."
+        "VmHWM rise <= %d MiB, only Exception subclasses escape, worker exit status. (d) histories in one interpreter: one input x one sequence "
+        "repeated 40 (quick) / 150 (thorough) times, on intact, damaged and structurally mutated archives (every NUMBER := 2^31; thorough also 0, 0xff): "
+        "at quiescent points (after gc.collect) open descriptors, live Python threads, native threads (with a counter at the pyppmd boundary), "
+        "resident memory and live allocator blocks must not grow with the number of sessions; steady block growth is then measured in bytes under "
+        "tracemalloc and attributed to source lines (growth allocated inside a codec library's own call is reported separately). "
+        "Cell = (input family, mutation class, sequence shape, outcome)."
         % (SEQ_CPU_BUDGET, RSS_BUDGET_KB // 1024))
 ASSUMPTIONS = ["budgets calibrated on the valid corpus (largest valid sequence < 0.05 s CPU, < 20 MiB RSS rise): two orders of magnitude headroom",
                "wall clock never decides; a watchdog firing with CPU still advancing is inconclusive"]
@@ -129,6 +135,28 @@ def cases(rng, tier):
     for mid, plist in HOSTILE_PROPS:
         for props in plist:
             out.append({"fam": "props", "id": mid, "props": props, "seqs": _seqs(rng, 4), "open": "stream"})
+    # (d) histories in one interpreter: the same sequence again and again on one input; what a call keeps
+    # (descriptors, threads, memory) must not add up
+    reps = 40 if tier == "quick" else 150
+    rsel = corp[::4] if tier == "quick" else corp
+    for a in rsel:
+        size = len(a["hex"]) // 2
+        for seq, opn in ((["extractall"], "path"), (["testzip", "reset", "extractall"], "stream"), (["extract", "extract"], "path"), (["list", "test"], "path")):
+            out.append({"fam": "repeat", "arc": a, "ops": None, "seq": seq, "open": opn, "reps": reps})
+        dmg = [["trunc", rng.randrange(32, size)], ["trunc", max(1, size - rng.randint(1, 40))], ["flip", rng.randrange(size * 8)], ["flip", rng.randrange(32 * 8, max(32 * 8 + 1, (32 + a["pack_total"]) * 8))]]
+        for op in dmg if tier == "thorough" else dmg[:2]:
+            out.append({"fam": "repeat", "arc": a, "ops": [op], "seq": rng.choice([["extractall"], ["testzip"], ["extractall", "testzip"]]), "open": rng.choice(["path", "stream"]), "reps": reps})
+    for li, lay in enumerate(BASE_LAYOUTS):
+        toks = []
+        W.build(mem, lay, password="pw", rng=random.Random(1), token_hook=lambda t: (toks.extend(t), t)[1])
+        idx_n = [i for i, (k, v) in enumerate(toks) if k == "n"]
+        for i in idx_n:
+            for v in ((1 << 31,) if tier == "quick" else (0, 0xFF, 1 << 31)):
+                if v != toks[i][1]:
+                    out.append({"fam": "repeat", "layout": li, "mut": ["n", i, v], "seq": rng.choice([["extractall"], ["testzip"], ["extractall", "testzip"]]), "open": "stream", "reps": reps})
+    for c in out:
+        if c["fam"] == "repeat":
+            c["_timeout"] = 45  # a history takes 1-3 s; a block is then named after 45 s rather than after CASE_TIMEOUT
     # (c) passwords
     for a in corp:
         if a["password"] is not None:
@@ -188,6 +216,229 @@ def _run_seq(src_factory, pw, seq, names_hint):
                 pass
 
 
+def _native_threads():
+    with open("/proc/self/status") as f:
+        for line in f:
+            if line.startswith("Threads:"):
+                return int(line.split()[1])
+    return 0
+
+
+HEAP_GROWTH_PER_SESSION = 200  # bytes kept per session, steadily, not counting what codec libraries allocate inside their own calls
+
+
+_codec_line = {}
+
+
+def _is_codec_call(filename, lineno):
+    """True when that source line of py7zr/compressor.py is a wrapper's hand-over to a codec library object
+    (self.decoder.decode(..), self.encoder.flush(), self._decompressor.decompress(..) ...): memory allocated with
+    that line innermost was allocated by the library, not by py7zr."""
+    import linecache
+    import re
+
+    k = (filename, lineno)
+    if k not in _codec_line:
+        text = linecache.getline(filename, lineno)
+        _codec_line[k] = bool(filename.endswith("/py7zr/compressor.py") and re.search(r"self\.(_?decoder|_?encoder|_?decompressor|_?compressor|cipher|lzma_\w+)\.\w+\(", text))
+    return _codec_line[k]
+
+
+def _nfds():
+    return len(os.listdir("/proc/self/fd"))
+
+
+class _PpmdBoundary:
+    """Counts, at the library boundary, the native threads that appear during pyppmd decode calls."""
+
+    def __init__(self):
+        import py7zr.compressor as C
+
+        self.C = C
+        self.orig = C.PpmdDecompressor.decompress
+        self.calls = 0
+        self.spawned = 0
+        mon = self
+
+        def decompress(self_, data, max_length=-1):
+            n0 = _native_threads()
+            try:
+                return mon.orig(self_, data, max_length)
+            finally:
+                mon.calls += 1
+                mon.spawned += max(0, _native_threads() - n0)
+
+        self.wrapped = decompress
+
+    def __enter__(self):
+        self.C.PpmdDecompressor.decompress = self.wrapped
+        return self
+
+    def __exit__(self, *a):
+        self.C.PpmdDecompressor.decompress = self.orig
+
+
+def _run_repeat(case):
+    """One input, one call sequence, `reps` sessions in this interpreter. Monitors: descriptors, Python threads,
+    native threads and resident memory after a warm-up vs at the end (quiescent points: after gc.collect())."""
+    import gc
+
+    from vf.core import worker as WK
+
+    if case.get("arc"):
+        a = case["arc"]
+        data = bytes.fromhex(a["hex"])
+        pw = a["password"]
+        label = a["label"]
+        cls = "intact"
+        for op in case.get("ops") or []:
+            data = D.apply(data, op)
+            label += ":%r" % (op[:2],)
+            cls = "damage-" + op[0]
+    else:
+        m = case["mut"]
+
+        def hook(t, m=m):
+            t = list(t)
+            t[m[1]] = (t[m[1]][0], m[2])
+            return t
+
+        data = W.build(_base_members(), BASE_LAYOUTS[case["layout"]], password="pw", rng=random.Random(1), token_hook=hook)
+        pw = "pw"
+        label = "layout%d:%r" % (case["layout"], m)
+        cls = "struct-number"
+    seq = case["seq"]
+    reps = case["reps"]
+    obs = {"call_sequences_run": 0, "calls_returned_or_raised": 0, "repeat_histories": 1, "max_fd_growth": 0, "max_native_thread_growth": 0, "max_repeat_rss_growth_kb": 0}
+    viol = []
+    kind = "valid-archive" if cls == "intact" else "hostile-input"
+    with pz.scratch("vf-c05r-") as d:
+        if case["open"] == "path":
+            p = os.path.join(d, "i.7z")
+            with open(p, "wb") as f:
+                f.write(data)
+            fac = lambda: p  # noqa: E731
+        else:
+            fac = lambda: io.BytesIO(data)  # noqa: E731
+
+        def history(reps, warm, heap, budget):
+            """-> (base, mid_heap, end, outcome, sequences, calls); heap() is read at quiescent points."""
+            base = mid = None
+            outcome = "?"
+            nseq = ncalls = 0
+            with _PpmdBoundary() as pb:
+                for r in range(reps):
+                    if r == warm:
+                        gc.collect()
+                        base = (_nfds(), threading.active_count(), _native_threads(), WK.rss_now_kb(), pb.spawned, heap(), pb.calls)
+                    if r == warm + (reps - warm) // 2:
+                        gc.collect()
+                        mid = heap()
+                    with WK.inner_budget(budget):
+                        outcome, calls = _run_seq(fac, pw, seq, None)
+                    nseq += 1
+                    ncalls += calls
+                gc.collect()
+                end = (_nfds(), threading.active_count(), _native_threads(), WK.rss_now_kb(), pb.spawned, heap(), pb.calls)
+            return base, mid, end, outcome, nseq, ncalls
+
+        warm = 8
+        try:
+            base, mid, end, outcome, nseq, ncalls = history(reps, warm, sys.getallocatedblocks, SEQ_CPU_BUDGET)
+        except WK.CpuBudget as e:
+            fn = _innermost(e)
+            return K.result("violated", key="spin/%s/%s" % (fn, kind), what="%s, sequence %r repeated in one interpreter: no return within %.1fs CPU; spinning in %s" % (label, seq, SEQ_CPU_BUDGET, fn), _restart=True)
+        obs["call_sequences_run"] += nseq
+        obs["calls_returned_or_raised"] += ncalls
+        n = reps - warm
+        half = max(1, n // 2)
+        dfd, dpy, dnat, drss, dsp, _, dcalls = (end[i] - base[i] for i in range(7))
+        steady_blocks = min(mid - base[5], end[5] - mid)
+        obs["max_fd_growth"] = dfd
+        obs["max_native_thread_growth"] = dnat
+        obs["max_repeat_rss_growth_kb"] = drss
+        obs["max_steady_live_block_growth_x100_per_session"] = steady_blocks * 100 // half
+        tag = "%s, sequence %r x %d in one interpreter (%s)" % (label, seq, n, outcome)
+        restart = False
+        lib_threads = False
+        if dfd > 2:
+            viol.append({"key": "leak/descriptors/%s" % kind, "what": "%s: open descriptors grew by %d" % (tag, dfd)})
+        if dpy > 1:
+            viol.append({"key": "leak/python-threads", "what": "%s: live Python threads grew by %d" % (tag, dpy)})
+            restart = True
+        if dnat - dpy > 2:
+            restart = True
+            if dsp >= (dnat - dpy) - 1:
+                lib_threads = True
+                obs["pyppmd_threads_left_behind"] = dnat - dpy
+                viol.append({"key": "codec-library/pyppmd-decoder-thread-leak" + ("/valid-archive" if cls == "intact" else ""),
+                             "what": "%s: %d native threads left behind, %d of them seen starting inside pyppmd's decode() (%d decode calls)" % (tag, dnat - dpy, dsp, dcalls)})
+            else:
+                viol.append({"key": "leak/native-threads", "what": "%s: native threads grew by %d (Python threads by %d; %d started inside pyppmd decode calls)" % (tag, dnat, dpy, dsp)})
+        if drss > 48 * 1024 and not lib_threads:
+            viol.append({"key": "leak/memory/%s" % kind, "what": "%s: resident memory grew by %d MiB after the warm-up (input %d bytes)" % (tag, drss // 1024, len(data))})
+        if steady_blocks >= half and not lib_threads and not restart:
+            # at least one more live block per session in both halves of the run: measure bytes and name the sites
+            # (second, shorter history under tracemalloc; its slowdown is why it is not the first pass)
+            import tracemalloc
+
+            obs["heap_growth_measured"] = 1
+            tracemalloc.start(6)
+            try:
+                snaps = []
+
+                def heap():
+                    snaps.append(tracemalloc.take_snapshot())
+                    return tracemalloc.get_traced_memory()[0]
+
+                r2, w2 = 20, 4
+                try:
+                    b2, m2, e2, _, _, _ = history(r2, w2, heap, SEQ_CPU_BUDGET * 20)
+                except WK.CpuBudget:
+                    b2 = None
+                if b2 is not None:
+                    h2 = (r2 - w2) // 2
+                    flt = [tracemalloc.Filter(False, tracemalloc.__file__), tracemalloc.Filter(False, "/verif/*")]
+                    fs = [sn.filter_traces(flt) for sn in snaps[-3:]]
+
+                    def split(sa, sb):
+                        """growth between two snapshots -> (bytes not allocated below a codec-library call, library bytes, sites)"""
+                        own = lib = 0
+                        sites = []
+                        for st in sb.compare_to(sa, "traceback"):
+                            if not st.size_diff:
+                                continue
+                            fr = [f for f in st.traceback if "/py7zr/" in f.filename]
+                            inner = fr[-1] if fr else None
+                            if inner is not None and inner == st.traceback[-1] and _is_codec_call(inner.filename, inner.lineno):
+                                lib += st.size_diff
+                            else:
+                                own += st.size_diff
+                                f = inner or st.traceback[-1]
+                                sites.append((st.size_diff, "%+d B in %+d blocks at %s:%d" % (st.size_diff, st.count_diff, os.path.basename(f.filename), f.lineno)))
+                        sites.sort(reverse=True)
+                        return own, lib, [t for _, t in sites[:3]]
+
+                    o1, l1, _ = split(fs[0], fs[1])
+                    o2, l2, _ = split(fs[1], fs[2])
+                    _, _, sites = split(fs[0], fs[2])
+                    per = min(o1, o2) // h2
+                    obs["max_steady_heap_growth_bytes_per_session"] = per
+                    obs["max_steady_codec_library_heap_growth_bytes_per_session"] = min(l1, l2) // h2
+                    if per >= HEAP_GROWTH_PER_SESSION:
+                        viol.append({"key": "leak/heap/%s" % kind, "what": "%s: the interpreter heap grows steadily by %d bytes per session outside codec-library calls (input %d bytes); "
+                                     "largest growth sites: %s" % (tag, per, len(data), "; ".join(sites))})
+            finally:
+                tracemalloc.stop()
+    cell = "repeat|%s|%s|%s|%s" % (cls, "+".join(seq), case["open"], outcome.split(":")[0])
+    sample = {"family": "repeat", "input": label[:80], "sequence": seq, "repetitions": n, "fd_growth": dfd, "native_thread_growth": dnat, "rss_growth_kb": drss,
+              "live_block_growth_per_session": round(steady_blocks / half, 2)}
+    extra = {"_restart": True} if restart else {}
+    if viol:
+        return K.result("violated", violations=viol, cells=[cell], obs=obs, sample=sample, **extra)
+    return K.result("held", cells=[cell], obs=obs, sample=sample, **extra)
+
+
 def run_case(case):
     from vf.core import worker as WK
 
@@ -196,6 +447,8 @@ def run_case(case):
     cells = set()
     inputs = []  # (label, bytes, password)
     fam = case["fam"]
+    if fam == "repeat":
+        return _run_repeat(case)
     if fam in ("intact", "damage", "password"):
         a = case["arc"]
         base = bytes.fromhex(a["hex"])
